@@ -90,6 +90,12 @@ func (w *World) verifyFunction(fn *ssa.Function, fc *FuncContract) (res *FuncRes
 			enc.assume(fr.safeTr(pre, rq), "requires "+rq.Where())
 		}
 	}
+	if fc != nil {
+		for _, sp := range fc.Splits {
+			pre.where = sp.Where()
+			enc.splits = append(enc.splits, fr.safeTr(pre, sp))
+		}
+	}
 	// global facts (constant package variables)
 	fr.assumeGlobals(entry)
 
